@@ -3,7 +3,7 @@
     (tree with every position, error locations), and run the Spec oracle on the observed result.
     Executable only (extracted / vm_compute). *)
 From Coq Require Import List NArith ZArith Bool String.
-From ApiFu Require Import Base.Sexp Syn.Ast Syn.ParserModel Syn.Printer Syn.FrontEnd.
+From ApiFu Require Import Base.Sexp Syn.Ast Syn.ParserModel Syn.Printer Syn.FrontEnd Syn.PositionMethods.
 Import ListNotations.
 Local Open Scope string_scope.
 
@@ -304,6 +304,18 @@ Definition dec_stoken (s : sexp) : option stoken :=
   | _ => None
   end.
 
+(* l1 c1 l2 c2 ... *)
+Fixpoint dec_pos_pairs (fuel : nat) (l : list sexp) : option (list pos) :=
+  match l with
+  | [] => Some []
+  | a :: b :: r =>
+      match fuel with
+      | O => None
+      | S f => opt_bind (dec_pos a b) (fun p => opt_bind (dec_pos_pairs f r) (fun ps => Some (p :: ps)))
+      end
+  | _ => None
+  end.
+
 (** ** the observation of one run of the real parser on one source text *)
 Record run := mkrun {
   r_lines : N;                      (* number of line terminators in the text *)
@@ -311,7 +323,8 @@ Record run := mkrun {
   r_eof : pos; r_eof_errs : list pos;
   r_tree : option sexp;             (* None: nil *)
   r_errs : list pos;                (* Error.Location of every returned error, in order *)
-  r_src : option bytes }.           (* the source text itself *)
+  r_src : option bytes;             (* the source text itself *)
+  r_posm : option (list pos) }.     (* Position() of every node of the returned tree, pre-order *)
 
 Definition dec_run (s : sexp) : option run :=
   match tagged "run" s with
@@ -322,7 +335,8 @@ Definition dec_run (s : sexp) : option run :=
           opt_bind (dec_pos el ec) (fun e => opt_bind (map_opt dec_err ees) (fun ees' =>
           opt_bind (map_opt dec_err oes) (fun oes' =>
           Some (mkrun n' ts' e ees' (if is_sym "nil" tree then None else Some tree) oes'
-                      (match field1 "src" l with Some (SStr b) => Some b | _ => None end)))))))
+                      (match field1 "src" l with Some (SStr b) => Some b | _ => None end)
+                      (match field1 "posm" l with Some (SL ps) => dec_pos_pairs (List.length ps) ps | _ => None end)))))))
       | _, _, _, _ => None
       end
   | None => None
@@ -360,17 +374,17 @@ Definition unpos (e : etok) : etok := mket (ek e) (ev e) None.
 Inductive entry := EDoc | EValue.
 
 Record tree_facts := mkfacts {
-  tf_tokens : list etok; tf_wf : bool; tf_depth : Z; tf_positions : list pos }.
+  tf_tokens : list etok; tf_wf : bool; tf_depth : Z; tf_positions : list pos; tf_pm : list pos }.
 
 Definition facts_of (e : entry) (tree : sexp) : option tree_facts :=
   match e with
   | EDoc => opt_bind (dec_document tree) (fun d =>
               if sexp_eqb (enc_document d) tree
-              then Some (mkfacts (tokens_document d) (wf_document d) (depth_document d) (positions_document d))
+              then Some (mkfacts (tokens_document d) (wf_document d) (depth_document d) (positions_document d) (pm_document d))
               else None)
   | EValue => opt_bind (dec_value (sexp_size tree) tree) (fun v =>
               if sexp_eqb (enc_value v) tree
-              then Some (mkfacts (tokens_value v) (wf_value false v) (depth_value v) [])
+              then Some (mkfacts (tokens_value v) (wf_value false v) (depth_value v) [] (pm_value v))
               else None)
   end.
 
@@ -503,10 +517,26 @@ Definition from_bytes_limit : N := 2048.
 
 (** the parser model on the real scanner's tokens; and, from the bytes, the scanner model against
     the real scanner's stream and the composed model against the real parser's result *)
+(** the real Position() methods on the returned tree against the model's position functions on
+    the same tree *)
+Definition compare_posm (e : entry) (r : run) : option sexp :=
+  match r_tree r, r_posm r with
+  | Some tree, Some ps =>
+      match facts_of e tree with
+      | Some f => if pos_list_eqb (tf_pm f) ps then None
+                  else Some (v_mismatch "position-methods" [tag "model" [enc_errs (tf_pm f)]])
+      | None => None       (* a malformed tree is the oracle's business *)
+      end
+  | _, _ => None
+  end.
+
 Definition compare_run (e : entry) (r : run) : option sexp :=
   match compare_outcome "from-tokens" (model_run e r) r with
   | Some v => Some v
   | None =>
+      match compare_posm e r with
+      | Some v => Some v
+      | None =>
       match r_src r with
       | None => None
       | Some src =>
@@ -518,6 +548,7 @@ Definition compare_run (e : entry) (r : run) : option sexp :=
           | Some false => Some (v_mismatch "front-end-token-stream" [])
           | Some true => compare_outcome "from-bytes" (model_run_bytes e src) r
           end
+      end
       end
   end.
 
@@ -549,6 +580,7 @@ Definition classes_run (e : entry) (r : run) : list string :=
   (if acc && has_tok b_bang KPunct r then ["non-null-types"] else []) ++
   (if acc && has_tok b_fragment KName r then ["kw-fragment"] else []) ++
   (if Nat.leb 1000 n then ["thousand-tokens"] else []) ++
+  (match r_tree r, r_posm r with Some _, Some (_ :: _) => ["position-methods-compared"] | _, _ => [] end) ++
   (match r_src r with
    | Some src => if N.ltb from_bytes_limit (N.of_nat (List.length src)) then ["from-tokens-only"] else ["from-bytes"]
    | None => ["from-tokens-only"]
